@@ -112,7 +112,9 @@ def r3_confinement(R) -> None:
     if ok:
         from fsa.gated import canon as _canon
         lc = _canon(f.expand(res[0].id, res[0].ast.value.args[0], comps=True), fuse=True)
-        ok2 = isinstance(lc, ast.ListComp) and text(lc.generators[0].iter) == 'names' and 'self[' in text(lc.elt) and '[t]' in text(lc.elt)
+        gv = text(lc.generators[0].target) if isinstance(lc, ast.ListComp) else '?'
+        # which names are traced is C17.R5's business: here, that each value is the traced variable's element at t
+        ok2 = isinstance(lc, ast.ListComp) and len(lc.generators) == 1 and not lc.generators[0].ifs and f'self[{gv}][t]' in text(lc.elt)
         R.check(ok2, q, 'snapshot-values:' + text(lc)[:50], 'the snapshot holds the traced variables at t, in order', f'`{text(lc)[:60]}`', where=f.where(res[0]))
     # Trace methods write only their own attributes
     for m in ('__init__', 'append'):
